@@ -697,7 +697,8 @@ class CDSInterval(AbstractFeatureInterval):
             # lift this back to chromosome coordinates -- this produces a chromosome coordinate Location
             # whose bounds are the portion of this CDS that are contained on the sequence chunk
             loc_on_chrom = chunk_relative_cleaned_location.lift_over_to_first_ancestor_of_type(SequenceType.CHROMOSOME)
-            offset += self._calculate_frame_offset(relative_loc, loc_on_chrom)
+            # the distance is measured from the 5' end of the whole CDS, also when a codon window cut it
+            offset += self._calculate_frame_offset(loc, loc_on_chrom)
             return chunk_relative_cleaned_location, offset
         else:
             offset += self._calculate_frame_offset(loc, relative_loc)
@@ -766,7 +767,8 @@ class CDSInterval(AbstractFeatureInterval):
             # lift this back to chromosome coordinates -- this produces a chromosome coordinate Location
             # whose bounds are the portion of this CDS that are contained on the sequence chunk
             loc_on_chrom = chunk_relative_cleaned_location.lift_over_to_first_ancestor_of_type(SequenceType.CHROMOSOME)
-            offset = self._calculate_frame_offset(relative_cleaned_location, loc_on_chrom)
+            # the distance is measured from the 5' end of the whole cleaned CDS, also when a codon window cut it
+            offset = self._calculate_frame_offset(cleaned_location, loc_on_chrom)
             return chunk_relative_cleaned_location, offset
         else:
             offset = self._calculate_frame_offset(cleaned_location, relative_cleaned_location)
